@@ -3113,7 +3113,7 @@ where
         let reserve = if self.is_empty() {
             iter.size_hint().0
         } else {
-            (iter.size_hint().0 + 1) / 2
+            iter.size_hint().0.saturating_add(1) / 2
         };
         self.reserve(reserve);
         iter.for_each(move |(k, v)| {
